@@ -386,9 +386,15 @@ func (g *c13gen) instance(s any, root any, depth int) any {
 	case typ == "object" || typ == "" && (hasProps || m["required"] != nil || m["additionalProperties"] != nil || m["patternProperties"] != nil || m["propertyNames"] != nil || m["minProperties"] != nil):
 		o := c13M{}
 		if ps, ok := m["properties"].(c13M); ok {
-			for k, sub := range ps {
+			// sorted: the PRNG must be consumed in the same order in every run (the frozen stream is reproducible)
+			pk := make([]string, 0, len(ps))
+			for k := range ps {
+				pk = append(pk, k)
+			}
+			sort.Strings(pk)
+			for _, k := range pk {
 				if r.IntN(3) != 0 {
-					o[k] = g.instance(sub, root, depth-1)
+					o[k] = g.instance(ps[k], root, depth-1)
 				}
 			}
 		}
@@ -752,6 +758,8 @@ func c13class(min any, inst string, reverse bool, cueSays bool) string {
 		return "required-name-escapes-additionalProperties-false"
 	case c13compositeEnum(min):
 		return "enum-or-const-of-composite-value"
+	case c13apNextToApplicator(min):
+		return "additionalProperties-next-to-applicator"
 	case kw["contains"]:
 		return "contains"
 	case !reverse && kw["$ref"]:
@@ -867,6 +875,28 @@ func c13requiredEscapes(s any) bool {
 				if _, ok := props[name]; !ok {
 					found = true
 				}
+			}
+		}
+	}
+	check(s)
+	c13sub(s, check)
+	return found
+}
+
+// c13apNextToApplicator: an object schema has additionalProperties and a logical applicator as siblings.
+func c13apNextToApplicator(s any) bool {
+	found := false
+	check := func(x any) {
+		m, ok := x.(map[string]any)
+		if !ok {
+			return
+		}
+		if _, ok := m["additionalProperties"]; !ok {
+			return
+		}
+		for _, k := range []string{"allOf", "anyOf", "oneOf", "not", "if"} {
+			if _, ok := m[k]; ok {
+				found = true
 			}
 		}
 	}
